@@ -61,6 +61,13 @@ def main():
             chains.append(pattern_chain("c09-p%d" % k, seed * 100 + k, pat, P) + (pat,))
         m = scen.mixed_chain(seed + 5, name="c09-mixed", blocks=10, pip10=10, unrated_p=0.3)
         chains.append((m, 8, None))
+        # a chain that crosses the 2.0.2 activation with transfers to the burn address before and after it (what a process looked up
+        # before the activation may not survive it)
+        v = scen.mixed_chain(seed + 9, name="c09-v202", blocks=10, sched=dict(scen.LIVE, V202=13, OneWaySmall=13), unrated_p=0.1)
+        for hh in sorted(v.blocks):
+            if hh >= 9:
+                v.transfer(hh, "A1", "PEG", [("BURN", 1000 + hh)], track=False)
+        chains.append((v, 8, None))
         # an asset without a usable average for a while, with the ledger-level read methods of the API called after every block:
         # what a reader left in memory may not matter either (a restart after the read forgets it, the uninterrupted run does not)
         z = c13.live(seed + 23, 0, tier)
